@@ -227,7 +227,13 @@ def c15_unit(args):
                 total = specs[i].get("lines")
                 if not total:
                     # count on fresh objects first (an ordinary, completed compilation)
-                    st, text, lc = traced_compile(parse_bundle(specs[i]["yaml"], specs[i]["mode"]), None)
+                    try:
+                        st, text, lc = traced_compile(parse_bundle(specs[i]["yaml"], specs[i]["mode"]), None)
+                    except Exception as e:
+                        # an ordinary fresh compilation of a spec that compiles in a pristine interpreter
+                        out["violations"].append({"kind": "fresh_compile_fails_after_history", "after_op": oi,
+                                                  "spec": specs[i]["name"], "error": "%s: %s" % (type(e).__name__, str(e)[:200])})
+                        break
                     total = specs[i]["lines"] = max(1, lc.n)
                     specs[i]["sites"] = sorted(lc.first_seen.values())
                     out["compiles"] += 1
@@ -240,7 +246,13 @@ def c15_unit(args):
                     n = sites[j] + int(frac * 7919) % 3
                 else:
                     n = max(1, int(frac * total))
-                st, text, lc = traced_compile(objs, n)
+                try:
+                    st, text, lc = traced_compile(objs, n)
+                except Exception as e:
+                    out["violations"].append({"kind": "fresh_compile_fails_after_history" if b is None else "recompile_from_same_objects_fails",
+                                              "after_op": oi, "spec": specs[i]["name"],
+                                              "error": "%s: %s" % (type(e).__name__, str(e)[:200])})
+                    break
                 if st == "aborted":
                     out["faults"]["aborted"] += 1
                     out["abort_sites"].append(lc.where)
